@@ -1165,6 +1165,17 @@ class Executor:
     def st_Pass(self, s):
         pass
 
+    def st_Delete(self, s):
+        """`del lst[k]` on a python list of known length at a known position (bounded contracts only)"""
+        for t in s.targets:
+            if not isinstance(t, ast.Subscript):
+                raise Unsupported('del of %s' % ast.unparse(t))
+            o = self.ev(t.value)
+            k = concrete(self.ev(t.slice))
+            if not (isinstance(o, Tup) and o.kind == 'list' and k is not None and -len(o.items) <= k < len(o.items)):
+                raise Unsupported('del %s' % ast.unparse(t))
+            del o.items[k]
+
     def st_Assign(self, s):
         v = self.ev(s.value)
         for t in s.targets:
